@@ -145,6 +145,8 @@ macro_rules! impl_metadata_value_trait {
             }
 
             unsafe fn load_atomic(addr: Address, order: Ordering) -> Self {
+                #[cfg(feature = "verif")]
+                crate::util::verif::rt::sched_point(crate::util::verif::rt::Kind::AtomicLoad, addr.as_usize());
                 addr.as_ref::<$atomic>().load(order)
             }
 
@@ -153,6 +155,8 @@ macro_rules! impl_metadata_value_trait {
             }
 
             unsafe fn store_atomic(addr: Address, value: Self, order: Ordering) {
+                #[cfg(feature = "verif")]
+                crate::util::verif::rt::sched_point(crate::util::verif::rt::Kind::AtomicStore, addr.as_usize());
                 addr.as_ref::<$atomic>().store(value, order)
             }
 
@@ -163,23 +167,33 @@ macro_rules! impl_metadata_value_trait {
                 success: Ordering,
                 failure: Ordering,
             ) -> Result<Self, Self> {
+                #[cfg(feature = "verif")]
+                crate::util::verif::rt::sched_point(crate::util::verif::rt::Kind::AtomicCas, addr.as_usize());
                 addr.as_ref::<$atomic>()
                     .compare_exchange(current, new, success, failure)
             }
 
             unsafe fn fetch_add(addr: Address, value: Self, order: Ordering) -> Self {
+                #[cfg(feature = "verif")]
+                crate::util::verif::rt::sched_point(crate::util::verif::rt::Kind::AtomicRmw, addr.as_usize());
                 addr.as_ref::<$atomic>().fetch_add(value, order)
             }
 
             unsafe fn fetch_sub(addr: Address, value: Self, order: Ordering) -> Self {
+                #[cfg(feature = "verif")]
+                crate::util::verif::rt::sched_point(crate::util::verif::rt::Kind::AtomicRmw, addr.as_usize());
                 addr.as_ref::<$atomic>().fetch_sub(value, order)
             }
 
             unsafe fn fetch_and(addr: Address, value: Self, order: Ordering) -> Self {
+                #[cfg(feature = "verif")]
+                crate::util::verif::rt::sched_point(crate::util::verif::rt::Kind::AtomicRmw, addr.as_usize());
                 addr.as_ref::<$atomic>().fetch_and(value, order)
             }
 
             unsafe fn fetch_or(addr: Address, value: Self, order: Ordering) -> Self {
+                #[cfg(feature = "verif")]
+                crate::util::verif::rt::sched_point(crate::util::verif::rt::Kind::AtomicRmw, addr.as_usize());
                 addr.as_ref::<$atomic>().fetch_or(value, order)
             }
 
